@@ -785,7 +785,7 @@ def render_eq() -> str:
 
 
 # ---------------------------------------------------------------------------------------------
-# CacheValidatorBase (koda_validate/base.py) -> Koda.CStmt (lean/KodaModel/PyCache.lean)
+# CacheValidatorBase (koda_validate/base.py) -> Koda.KStmt (lean/KodaModel/PyCache.lean)
 
 OUT_CACHE = os.path.join(os.path.dirname(OUT), "CacheSrc.lean")
 CVARS = {"cache_result": "cacheResult", "result": "result"}
@@ -841,7 +841,7 @@ def render_cache() -> str:
         ok = (m is not None and [a.arg for a in m.args.args] == ["self", "val"] and not m.decorator_list
               and isinstance(m, ast.AsyncFunctionDef) == (meth == "validate_async"))
         term = KTr().block(m.body) if ok else '[.unsupported "not found / signature"]'
-        lines += [f"def {name} : List CStmt :=", f"  {term}", ""]
+        lines += [f"def {name} : List KStmt :=", f"  {term}", ""]
     lines += ["end Koda.Src", ""]
     return "\n".join(lines)
 
